@@ -23,7 +23,7 @@ TEXT = {
             "C08_byte_index_spec (regexp.go's sparse table + binary search equals the prefix-sum function at every rune index 0..n), C08_byte_range_slices (the bytes addressed by ByteRange decode to exactly the captured runes = Runes(); String() equals them when they are valid UTF-8), "
             "C08_routes_agree (ByteRange, FindAllStringIndex, compat FindAllIndex([]byte) and compat reader offsets give the same byte pair for every rune span), C08_rune_input_byte_range, C08_new_group_embedded_last, and C08_groups_wf_partial "
             "(Groups() is well-formed given the interpreter invariant as a hypothesis). The interpreter half of the property (captures stored by the VM are in range; group 0 is captured once) is not proved in these files. "
-            "The model is tied to the code by three legs per run: UTF-8 view vs Go (>= 130k strings), every route's byte pair for every rune span of 9k strings through the public API, and direct well-formedness checks of every returned match for >= 12k random and all harvested test patterns. Interpreter level (Proofs/ComposeExec.v, from C01 compile_correct2 + the Spec-level bounds): C08_exec_captures_in_bounds (whenever the interpreter model returns a match on a compiled supported program, every slot's array with balanceMatch's marker pairs denotes a stack of captures inside [0, len] with non-negative lengths, and isMatched/matchIndex/matchLength read its top) and C08_exec_group0_is_match_span (slot 0 denotes exactly the match span).",
+            "The model is tied to the code by three legs per run: UTF-8 view vs Go (>= 130k strings), every route's byte pair for every rune span of 9k strings through the public API, and direct well-formedness checks of every returned match for >= 12k random and all harvested test patterns. Interpreter level (Proofs/ComposeExec.v, from C01 compile_correct2 + the Spec-level bounds): C08_exec_captures_in_bounds (whenever the interpreter model returns a match on a compiled supported program, every slot's array with balanceMatch's marker pairs denotes a stack of captures inside [0, len] with non-negative lengths, and isMatched/matchIndex/matchLength read its top) and C08_exec_group0_is_match_span (slot 0 denotes exactly the match span). C08_exec_captures_in_bounds_terminating / C08_exec_group0_is_match_span_terminating: the interpreter-level capture theorems without the residual hypothesis that the reference attempt terminates (discharged by Proofs/SpecTermProofs.v for trees with one-directional loop bodies: term_ok root, term_fuel e root <= 2^31-1).",
     "design_ref": "DESIGN.md §3.1, §3.8, §4 C08",
     "note": "Coq kernel; no axioms; index conversion and slicing proved for all inputs; caps_in_bounds (interpreter) is a hypothesis of the one _partial theorem and is checked on the implementation only by sampling (leg c08-wellformed).",
     "technique": "Coq proofs (induction over the decode of the string, loop invariants for the array-building loops, binary-search invariant) over an executable model + differential correspondence via extraction + direct observation of every returned match",
